@@ -110,44 +110,23 @@ func (m *Modifier) ModifyResponse(res *http.Response) error {
 	// Reset the Content-Encoding since we know that the new body isn't encoded.
 	res.Header.Del("Content-Encoding")
 
-	// If no range request header is present, return the body as the response body.
-	if res.Request.Header.Get("Range") == "" {
+	// If no range request header is present, or it uses a unit other than
+	// bytes, return the body as the response body.
+	ranges, err := parseRange(res.Request.Header.Get("Range"), len(m.body))
+	if err != nil {
+		// Malformed header or no satisfiable range.
+		res.StatusCode = http.StatusRequestedRangeNotSatisfiable
+		res.Header.Set("Content-Range", fmt.Sprintf("bytes */%d", len(m.body)))
+		res.ContentLength = 0
+		res.Body = ioutil.NopCloser(bytes.NewReader(nil))
+
+		return nil
+	}
+	if ranges == nil {
 		res.ContentLength = int64(len(m.body))
 		res.Body = ioutil.NopCloser(bytes.NewReader(m.body))
 
 		return nil
-	}
-
-	rh := res.Request.Header.Get("Range")
-	rh = strings.ToLower(rh)
-	sranges := strings.Split(strings.TrimLeft(rh, "bytes="), ",")
-	var ranges [][]int
-	for _, rng := range sranges {
-		if strings.HasSuffix(rng, "-") {
-			rng = fmt.Sprintf("%s%d", rng, len(m.body)-1)
-		}
-
-		rs := strings.Split(rng, "-")
-		if len(rs) != 2 {
-			res.StatusCode = http.StatusRequestedRangeNotSatisfiable
-			return nil
-		}
-		start, err := strconv.Atoi(strings.TrimSpace(rs[0]))
-		if err != nil {
-			return err
-		}
-
-		end, err := strconv.Atoi(strings.TrimSpace(rs[1]))
-		if err != nil {
-			return err
-		}
-
-		if start > end {
-			res.StatusCode = http.StatusRequestedRangeNotSatisfiable
-			return nil
-		}
-
-		ranges = append(ranges, []int{start, end})
 	}
 
 	// Range request.
@@ -194,6 +173,71 @@ func (m *Modifier) ModifyResponse(res *http.Response) error {
 	res.Header.Set("Content-Type", fmt.Sprintf("multipart/byteranges; boundary=%s", m.boundary))
 
 	return nil
+}
+
+// parseRange parses a Range header for a body of the given size as described in
+// RFC 7233. It returns the satisfiable ranges as inclusive [start, end] pairs
+// with end clamped to the last byte of the body. It returns nil ranges when
+// the header is absent or uses a unit other than bytes, and an error when the
+// header is malformed or none of its ranges can be satisfied.
+func parseRange(rh string, size int) ([][]int, error) {
+	const unit = "bytes="
+	if len(rh) < len(unit) || !strings.EqualFold(rh[:len(unit)], unit) {
+		return nil, nil
+	}
+
+	var ranges [][]int
+	for _, rng := range strings.Split(rh[len(unit):], ",") {
+		rng = strings.TrimSpace(rng)
+		if rng == "" {
+			continue
+		}
+
+		i := strings.Index(rng, "-")
+		if i < 0 {
+			return nil, fmt.Errorf("body: invalid range %q", rng)
+		}
+		first, last := strings.TrimSpace(rng[:i]), strings.TrimSpace(rng[i+1:])
+
+		if first == "" {
+			// Suffix range: the last n bytes of the body.
+			n, err := strconv.ParseUint(last, 10, 63)
+			if err != nil {
+				return nil, fmt.Errorf("body: invalid range %q", rng)
+			}
+			if n > uint64(size) {
+				n = uint64(size)
+			}
+			if n > 0 {
+				ranges = append(ranges, []int{size - int(n), size - 1})
+			}
+			continue
+		}
+
+		start, err := strconv.ParseUint(first, 10, 63)
+		if err != nil {
+			return nil, fmt.Errorf("body: invalid range %q", rng)
+		}
+		end := uint64(size) - 1
+		if last != "" {
+			if end, err = strconv.ParseUint(last, 10, 63); err != nil || start > end {
+				return nil, fmt.Errorf("body: invalid range %q", rng)
+			}
+		}
+		if start >= uint64(size) {
+			// Not satisfiable, skip.
+			continue
+		}
+		if end >= uint64(size) {
+			end = uint64(size) - 1
+		}
+		ranges = append(ranges, []int{int(start), int(end)})
+	}
+
+	if len(ranges) == 0 {
+		return nil, fmt.Errorf("body: no satisfiable range in %q", rh)
+	}
+	return ranges, nil
 }
 
 // randomBoundary generates a 30 character string for boundaries for mulipart range
